@@ -24,6 +24,8 @@ type JDoc struct {
 	Includes  []string
 	Lines     []GLine
 	Versions  map[int]string // marker version -> text
+	VerLines  map[int][]GLine
+	VerIncs   map[int][]string
 	InTree    bool
 	// what is on disk (nil = not on disk)
 	DiskLines    []GLine
@@ -179,6 +181,7 @@ func NewJWorld(c *simrt.Chooser, workspace bool, flags ...string) *JWorld {
 	for _, d := range w.Docs[:3] {
 		text, lines := w.GenJText(c, d, 0, d.Includes)
 		d.Versions[0] = text
+		d.remember(0, lines, d.Includes)
 		d.DiskMark = 0
 		d.Lines = lines
 		d.DiskLines = lines
@@ -229,6 +232,7 @@ func (w *JWorld) NextVersion(c *simrt.Chooser, doc *JDoc) string {
 	text, lines := w.GenJText(c, doc, doc.Marker, doc.Includes)
 	doc.Text, doc.Lines = text, lines
 	doc.Versions[doc.Marker] = text
+	doc.remember(doc.Marker, lines, doc.Includes)
 	return text
 }
 
@@ -283,6 +287,23 @@ func (w *JWorld) Save(doc *JDoc) J {
 	doc.DiskLines = doc.Lines
 	doc.DiskIncludes = append([]string(nil), doc.Includes...)
 	return J{"textDocument": docID(doc.URI)}
+}
+
+func (d *JDoc) remember(v int, lines []GLine, incs []string) {
+	if d.VerLines == nil {
+		d.VerLines, d.VerIncs = map[int][]GLine{}, map[int][]string{}
+	}
+	d.VerLines[v] = lines
+	d.VerIncs[v] = append([]string(nil), incs...)
+}
+
+// ExtWrite: another program overwrites the file of doc with the text of its
+// version v, without telling anybody (fault ext-write).
+func (w *JWorld) ExtWrite(doc *JDoc, v int) {
+	w.Env.Disk.WriteFile(doc.Path, []byte(doc.Versions[v]))
+	doc.DiskMark = v
+	doc.DiskLines = doc.VerLines[v]
+	doc.DiskIncludes = append([]string(nil), doc.VerIncs[v]...)
 }
 
 // OccAt draws a position on an occurrence of the document (or anywhere).
